@@ -136,6 +136,8 @@ def main():
             thorough['cxt_roundtrip_weakened_preconditions_refused'] = pychars.necessity()
             from contracts import formats_chars_table as pychars_table      # the same for the table format and the FIMI rows (DESIGN 11.16)
             thorough['table_roundtrip_weakened_preconditions_refused'] = pychars_table.necessity() + pychars_table.necessity_fimi()
+            from contracts import formats_chars_csv as pychars_csv          # the same for the csv format in the excel dialect (DESIGN 11.18)
+            thorough['csv_roundtrip_weakened_preconditions_refused'] = pychars_csv.necessity()
         except AssertionError as e:
             selfcheck_problems.append('theory axiom refuted by CPython: %r' % (e,))
         os.environ.setdefault('PYVC_Z3_TIMEOUT_MS', '5000')
